@@ -141,6 +141,8 @@ type Interp struct {
 	onceDone       map[Ptr]bool
 	pools          map[Ptr][]Value
 	atomicVals     map[Ptr]Value
+	reflIters      map[int]*reflMapIter
+	syncMaps       map[Ptr]*MapObj
 }
 
 type ChanObj struct {
@@ -372,11 +374,14 @@ func (in *Interp) runDefers(fr *frame) {
 
 func (in *Interp) callValue(f Value, args []Value, cc *ssa.CallCommon) Value {
 	fv, ok := f.(*FuncV)
-	if !ok || fv == nil || (fv.Fn == nil && fv.B == nil) {
+	if !ok || fv == nil || (fv.Fn == nil && fv.B == nil && fv.N == nil) {
 		in.gopanic("call of nil function")
 	}
 	if fv.B != nil {
 		return in.builtin(fv.B, args, cc)
+	}
+	if fv.N != nil {
+		return fv.N(in, args)
 	}
 	return in.callFunction(fv.Fn, args, fv.Bind)
 }
